@@ -493,3 +493,13 @@ def run(repo: Repo, rep: Report) -> None:  # noqa: F811
             rep.ob("C17.j-prefix-registered-for-every-non-verb-term", mod, cname + ".preprocessTriple", "continue @%s" % norm(mod.parent.get(id(c)).test if isinstance(mod.parent.get(id(c)), ast.If) else c)[:60], guarded,
                    "only in predicate position" if guarded else
                    "the prefix registration is skipped for subjects and objects too: a graph that uses rdf:type as subject or object (`ex:kind rdfs:subPropertyOf rdf:type`) is written with `rdf:type` but without a PREFIX rdf: line", node=c)
+
+
+_run_before_borrow = run
+
+
+def run(repo: Repo, rep: Report) -> None:  # noqa: F811
+    _run_before_borrow(repo, rep)
+    from vlib.core import borrow
+
+    borrow(repo, rep, "C17", "C03", ('C03.c',))
